@@ -1,7 +1,83 @@
+/-
+  C19 — NashMTL's state: reset() means fresh, weights are reused as scheduled.
+
+  PROPERTY THEOREMS ONLY (statements fixed; helper lemmas in TjdLemmas/NashLemmas.lean).
+  `solve` (the cvxpy/ECOS iteration) and `norm` are arbitrary functions (kernels): the theorems hold for
+  every solver.  All histories of calls and resets, all `k = update_weights_every ≥ 1`.
+-/
+import Mathlib.Algebra.Order.Field.Basic
 import TjdModel.Agg.Nash
+import TjdLemmas.NashLemmas
 namespace Tjd.Props.C19
 open Tjd Tjd.Agg
 
-theorem fresh_step {α : Type} [One α] (m : Nat) : (nashFresh m : NashState α).step = 0 := rfl
+variable {α : Type} [Field α] [LinearOrder α] [IsStrictOrderedRing α]
+
+/-- RESET MEANS FRESH: after any history, a `reset()` followed by a continuation produces exactly what
+    a newly constructed instance produces on the continuation -/
+theorem reset_eq_fresh (solve : Mat α → Vec α → Vec α) (norm : Mat α → Vec α → α) (m k : Nat)
+    (maxNorm : α) (st : NashState α) (cont : List (NashOp α)) :
+    nashRun solve norm m k maxNorm st (.reset :: cont) =
+      nashRun solve norm m k maxNorm (nashFresh m) cont := by
+  sorry
+
+/-- … in particular whatever happened before the reset is irrelevant -/
+theorem history_before_reset_irrelevant (solve : Mat α → Vec α → Vec α) (norm : Mat α → Vec α → α)
+    (m k : Nat) (maxNorm : α) (h₁ h₂ cont : List (NashOp α)) :
+    (nashRun solve norm m k maxNorm (nashFresh m) (h₁ ++ .reset :: cont)).drop
+        (h₁.filter (fun o => match o with | .call _ => true | .reset => false)).length =
+    (nashRun solve norm m k maxNorm (nashFresh m) (h₂ ++ .reset :: cont)).drop
+        (h₂.filter (fun o => match o with | .call _ => true | .reset => false)).length := by
+  sorry
+
+/-- SCHEDULE: on a history of calls only, the solver is invoked exactly on calls `0, k, 2k, …` -/
+theorem schedule (solve : Mat α → Vec α → Vec α) (norm : Mat α → Vec α → α) (m k : Nat) (hk : 0 < k)
+    (maxNorm : α) (Js : List (Mat α)) (i : Nat) (hi : i < Js.length) :
+    ((nashRun solve norm m k maxNorm (nashFresh m) (Js.map NashOp.call)).getD i ([], [], false)).2.2 =
+      decide (i % k = 0) := by
+  sorry
+
+/-- REUSE: between recomputations the (pre-rescaling) weights are those of the last recomputation,
+    unchanged -/
+theorem reuse_unchanged (solve : Mat α → Vec α → Vec α) (norm : Mat α → Vec α → α) (m k : Nat)
+    (hk : 0 < k) (maxNorm : α) (Js : List (Mat α)) (i : Nat) (hi : i < Js.length) :
+    ((nashRun solve norm m k maxNorm (nashFresh m) (Js.map NashOp.call)).getD i ([], [], false)).1 =
+      ((nashRun solve norm m k maxNorm (nashFresh m) (Js.map NashOp.call)).getD (i / k * k)
+        ([], [], false)).1 := by
+  sorry
+
+/-- SUB-SAMPLING: an instance with `update_weights_every = k` fed `M_0 … M_t` computes, at its
+    recomputation calls, exactly the weights an instance with `update_weights_every = 1` computes when
+    fed `M_0, M_k, M_2k, …` only -/
+theorem subsampled_equiv (solve : Mat α → Vec α → Vec α) (norm : Mat α → Vec α → α) (m k : Nat)
+    (hk : 0 < k) (maxNorm : α) (Js : List (Mat α)) (q : Nat) (hq : q * k < Js.length) :
+    ((nashRun solve norm m k maxNorm (nashFresh m) (Js.map NashOp.call)).getD (q * k)
+        ([], [], false)).1 =
+    ((nashRun solve norm m 1 maxNorm (nashFresh m)
+        (((List.range ((Js.length + k - 1) / k)).map fun j => Js.getD (j * k) []).map NashOp.call)).getD q
+        ([], [], false)).1 := by
+  sorry
+
+/-- NORM BOUND: whenever `max_norm > 0` the returned weights give a vector of norm at most `max_norm`
+    (`norm` is non-negative and positively homogeneous in the weights: the contract of `‖αᵀJ‖`) -/
+theorem max_norm_bound (norm : Mat α → Vec α → α) (maxNorm : α) (hmax : 0 < maxNorm) (J : Mat α)
+    (a : Vec α) (hnn : 0 ≤ norm J a)
+    (hhom : ∀ t : α, 0 ≤ t → norm J (a.map fun x => x / norm J a * t) = t) :
+    norm J (nashRescale norm maxNorm J a) ≤ maxNorm := by
+  sorry
+
+/-- the rescaling only changes the length: the returned weights are a non-negative multiple of the
+    scheduled ones -/
+theorem rescale_is_scaling (norm : Mat α → Vec α → α) (maxNorm : α) (J : Mat α) (a : Vec α)
+    (hnn : 0 ≤ norm J a) :
+    ∃ t : α, 0 ≤ t ∧ nashRescale norm maxNorm J a = a.map (t * ·) := by
+  sorry
+
+/-- every call returns (the state machine has no failing transition): one output per call -/
+theorem one_output_per_call (solve : Mat α → Vec α → Vec α) (norm : Mat α → Vec α → α) (m k : Nat)
+    (maxNorm : α) (st : NashState α) (ops : List (NashOp α)) :
+    (nashRun solve norm m k maxNorm st ops).length =
+      (ops.filter (fun o => match o with | .call _ => true | .reset => false)).length := by
+  sorry
 
 end Tjd.Props.C19
